@@ -78,8 +78,23 @@ func compileBundle(names, srcs []string, globals map[string]ref.Value) (c *compi
 					return
 				}
 				b.AddGlobalsMap(m)
+			} else if dm := toDataMap(globals); len(dm) >= 2 && strHash(srcs[0])%3 == 0 {
+				// in two maps (application-wide globals and those of this deployment): the maps stay the
+				// application's own
+				two := [2]data.Map{{}, {}}
+				for i, k := range ref.SortedKeys(globals) {
+					two[i%2][k] = dm[k]
+				}
+				n0, n1 := len(two[0]), len(two[1])
+				b.AddGlobalsMap(two[0]).AddGlobalsMap(two[1])
+				defer func() {
+					if err == nil && (len(two[0]) != n0 || len(two[1]) != n1) {
+						err = fmt.Errorf("AddGlobalsMap changed a map it was given: %d and %d entries before, %d and %d after", n0, n1, len(two[0]), len(two[1]))
+						c = nil
+					}
+				}()
 			} else {
-				b.AddGlobalsMap(toDataMap(globals))
+				b.AddGlobalsMap(dm)
 			}
 		}
 		if c03Pass != nil {
